@@ -5,13 +5,8 @@ From Coq Require Extraction ExtrOcamlBasic ExtrOcamlString.
 From S2 Require Import Base.Num Base.Arr Model.Expr Model.Struct Model.Rates Model.InitPop
      Model.Solvers Model.Derived Model.Run Model.Program.
 
-Definition q_one_step := one_step QcOps.
-Definition q_run_model := run_model QcOps.
-Definition q_initial_population := initial_population QcOps.
-Definition q_env_of := env_of QcOps.
-Definition q_eval := eval QcOps.
 Definition q_this (x : Qc) : Q := this x.
 
 Extraction "summer_model.ml"
-  build build_ok q_one_step q_run_model q_initial_population q_env_of q_eval q_this Q2Qc
+  build build_ok one_step run_model initial_population env_of eval QcOps q_this Q2Qc
   query_compartments query_flows serialize num_times.
